@@ -19,7 +19,8 @@ RULE = ("Enumeration: every string of length <= 3 (quick) / <= 4 (thorough) over
         "after it; every pair (upstream string, downstream string) over 13 representatives with lengths "
         "(<=1,<=3),(<=2,<=1) quick / (<=2,<=3),(<=3,<=1) thorough as two adjacent genes (both forward; both reverse "
         "and mixed strands for the short ones), every module template cut in two at every point with six "
-        "continuations, directly through combine_modules and (total length <= 3 / <= 4) through generate_domains. "
+        "continuations, directly through combine_modules and (total length <= 3 / <= 4, reverse strand <= 3) through "
+        "generate_domains. "
         "Random: Hypothesis strings of length 0-14 over all 60 profile names with KS subtypes (none, the five "
         "ksdomains.hmm names, a nested transATor name, two ambiguous internal hits), start positions increasing "
         "with equal-start ties and shuffled input order as classes; a mixture of uniform strings, strings made of "
@@ -926,7 +927,8 @@ def enum_pipeline(thorough: bool):
         for up in strings(PAIR_SYMBOLS, limit - 1, 1):
             for down in strings(PAIR_SYMBOLS, limit - len(up), 1):
                 yield {"genes": [tokens_gene(up, "g0"), tokens_gene(down, "g1")], "strands": [1, 1]}
-                yield {"genes": [tokens_gene(down, "g0"), tokens_gene(up, "g1")], "strands": [-1, -1]}
+                if len(up) + len(down) <= 3:
+                    yield {"genes": [tokens_gene(down, "g0"), tokens_gene(up, "g1")], "strands": [-1, -1]}
         for template in FULL_TEMPLATES:
             for cut in range(1, len(template)):
                 for follow in ((), ("KR",), ("KS", "AT")):
@@ -1158,6 +1160,6 @@ def run(ctx) -> None:
     ctx.enum("pair_enum", enum_pairs(ctx.thorough), shards=shards)
     ctx.enum("pipeline_enum", enum_pipeline(ctx.thorough), shards=shards)
     rand_shards = ctx.pick(8, 16)
-    ctx.hyp("gene", gene_specs(), max_examples=ctx.pick(3000, 50000), shards=rand_shards)
-    ctx.hyp("pair", pair_specs(), max_examples=ctx.pick(3000, 50000), shards=rand_shards)
-    ctx.hyp("pipeline", pipeline_specs(), max_examples=ctx.pick(1000, 20000), shards=rand_shards)
+    ctx.hyp("gene", gene_specs(), max_examples=ctx.pick(2500, 40000), shards=rand_shards)
+    ctx.hyp("pair", pair_specs(), max_examples=ctx.pick(2500, 40000), shards=rand_shards)
+    ctx.hyp("pipeline", pipeline_specs(), max_examples=ctx.pick(800, 12000), shards=rand_shards)
